@@ -529,6 +529,46 @@ def sec_clifford(ctx, rng, case):
     ctx.sample({"n": n, "program": P.describe(steps), "simulator": which, "paths": len(ex.paths)})
 
 
+def sec_subcircuits(ctx, rng, case):
+    """measurements and feed-forward inside nested, repeated sub-circuits that re-use key names: the record distribution
+    of every simulator equals that of the flat program with the keys scoped by the documented rules"""
+    import cirq
+    from vf.props import c12 as C12
+    from vf.workloads import blocks as B
+
+    n = int(rng.integers(2, 4))
+    dims = (2,) * n
+    items = C12._gen_shadow(rng, n, int(rng.integers(2, 4)), False)
+    flat = B.flatten(items)
+    if not any(it["t"] == "B" for it in items) or B.flat_unbound_controls(flat) or B.count_digits(items) > 8 or not any(s_["t"] == "M" for s_ in flat):
+        ctx.reject("generator: no block / unbound control / too many digits")
+        return
+    qubits = P.make_qubits(rng, dims)
+    circuit = cirq.Circuit(B.items_to_moments(items, qubits))
+    ref = I.distribution(I.run(B.flat_to_ref(flat), dims))
+    kind = (SIMS + ["clifford"])[int(rng.integers(len(SIMS) + 1))]
+    wit = dict(n=n, tree=B.describe(items), simulator=kind)
+
+    def run(rng_obj):
+        sim = cirq.CliffordSimulator(seed=rng_obj) if kind == "clifford" else _make_sim(kind, rng_obj)
+        return _records_key(sim.run(circuit, repetitions=1))
+
+    try:
+        ex = SR.explore(run, max_paths=600, min_branch=1e-7)
+    except ValueError as e:
+        if "missing when testing classical control" not in str(e):
+            raise
+        ctx.check(False, "run-distribution==born", "C02:subcircuit-control-key-unresolved", str(e)[:200], **wit)
+        return
+    if ex.over_budget:
+        ctx.event("explorer-over-budget")
+        return
+    tv = L.tv_distance(ex.distribution(), ref)
+    ctx.check(tv <= (_tv_tol(kind) if kind != "clifford" else 1e-9), "run-distribution==born", "C02:run-distribution:subcircuits",
+              lambda: "record distribution of the circuit with nested sub-circuits differs from the flat program's by TV %.3g" % tv, **wit)
+    ctx.distinct((tuple(B.describe(items)), kind), nontrivial=len(ref) >= 2)
+
+
 SECTIONS = [
     ("run", sec_run, 1500, 30000, 5.0),
     ("simulate", sec_simulate, 600, 12000, 2.0),
@@ -536,4 +576,5 @@ SECTIONS = [
     ("free", sec_free, 2000, 40000, 1.0),
     ("step_sample", sec_step_sample, 600, 12000, 1.0),
     ("clifford", sec_clifford, 500, 10000, 1.5),
+    ("subcircuits", sec_subcircuits, 500, 10000, 1.5),
 ]
